@@ -59,6 +59,34 @@ def build_od():
     return od
 
 
+class Runaway(BaseException):
+    """the call under test exceeded every plausible number of steps (not an Exception: the library's
+    own handlers must not swallow it)"""
+
+
+STEP_CAP = 3000        # drive interactions / clock reads x10 per assignment; the unchanged library needs < 200
+
+
+class CappedTime(FakeTime):
+    def __init__(self, **kw):
+        super().__init__(**kw)
+        self.calls = 0
+
+    def time(self):
+        self.calls += 1
+        if self.calls > 10 * STEP_CAP:
+            raise Runaway("clock polled without end")
+        return super().time()
+
+    monotonic = time
+
+    def sleep(self, s):
+        self.calls += 1
+        if self.calls > 10 * STEP_CAP:
+            raise Runaway("sleeping without end")
+        super().sleep(s)
+
+
 class Drive:
     def __init__(self, ev, state, extra, auto_after, mask=0x3EF):
         self.ev, self.state, self.extra, self.auto_after = ev, state, extra, auto_after
@@ -79,6 +107,9 @@ class Drive:
     def tick(self):
         """called before serving any event: the automatic transition may fire here"""
         self.events += 1
+        self.in_call = getattr(self, "in_call", 0) + 1
+        if getattr(self, "cap_on", False) and self.in_call > STEP_CAP:
+            raise Runaway("drive interactions without end")
         if self.auto_after is not None and self.events > self.auto_after and self.state in AUTO:
             self.state = AUTO[self.state]
             self.ev.append({"e": "auto"})
@@ -126,7 +157,7 @@ class Drive:
 def mk_node(drive, transport, nid=3, with_mode=False):
     import canopen
     import canopen.profiles.p402 as p402
-    p402.time = FakeTime(tick=0.01)
+    p402.time = CappedTime(tick=0.01)
     net = canopen.Network()
     node = p402.BaseNode402(nid, build_od())
 
@@ -177,16 +208,19 @@ def run_case(case: dict) -> dict:
             for mode in modes:
                 del drive.pdo_modes[:]
                 res = "ok"
+                import canopen.profiles.p402 as p402
+                p402.time.calls = 0
                 try:
                     node.op_mode = mode
                 except TypeError:
                     res = "TypeError"
-                except Exception as exc:  # noqa
+                except (Exception, Runaway) as exc:  # noqa
                     res = "other:" + type(exc).__name__
+                p402.time.calls = 0
                 try:
                     node.state = ["READY TO SWITCH ON", "SWITCH ON DISABLED"][flip]
                     flip ^= 1
-                except Exception:  # noqa
+                except (Exception, Runaway):  # noqa
                     pass
                 ev.append({"e": "opmode_pdo", "mode": mode, "mask": mask & 0xFFFF, "seen": list(drive.pdo_modes),
                            "prev": prev, "result": res})
@@ -203,7 +237,7 @@ def run_case(case: dict) -> dict:
                     node.op_mode = mode
                 except TypeError:
                     res = "TypeError"
-                except Exception as exc:  # noqa
+                except (Exception, Runaway) as exc:  # noqa
                     res = "other:" + type(exc).__name__
                 ev.append({"e": "opmode", "mode": mode, "mask": mask & 0xFFFF, "writes": list(drive.mode_writes), "result": res})
     else:
@@ -212,9 +246,17 @@ def run_case(case: dict) -> dict:
         net, node = mk_node(drive, case.get("transport", "sdo"))
         for target in case["targets"]:
             ev.append({"e": "target", "name": target})
+            t_idx = len(ev)
+            drive.in_call, drive.cap_on = 0, True
+            import canopen.profiles.p402 as p402
+            p402.time.calls = 0
             try:
                 node.state = target
                 ev.append({"e": "ret"})
+            except Runaway as exc:
+                del ev[t_idx + 40:]     # keep the trace small
+                ev.append({"e": "runaway", "repr": str(exc)})
+                break
             except Exception as exc:  # noqa
                 ev.append({"e": "raise", "cls": type(exc).__name__, "repr": str(exc)[:100]})
     for i, e in enumerate(ev):
@@ -230,5 +272,8 @@ def sw_table(_case=None):
     rows = []
     for sw in range(65536):
         drive.sw = lambda _v=sw: _v
-        rows.append({"sw": sw, "state": node.state})
+        try:
+            rows.append({"sw": sw, "state": node.state})
+        except Exception as exc:  # noqa: decoding a statusword must not fail
+            rows.append({"sw": sw, "state": "EXCEPTION " + type(exc).__name__})
     return rows
